@@ -516,7 +516,7 @@ def run(ctx):
         "CPython's parser and line numbers",
     ]
     ctx.assumptions += ["model alphabet for \\w and int(): ASCII", "Tree.WF (checked on every exported tree by the C01 theorem's Bool form)"]
-    if not ctx.violations and (not ctx.proofs_ok or ctx.broken):
+    if not local_known.unexplained(ctx) and (not ctx.proofs_ok or ctx.broken):
         ctx.violations.append({
             "no_input": True,
             "what": "a proof or the correspondence no longer checks",
